@@ -166,7 +166,7 @@ Definition c16_check (c : c16case) : bool :=
   | FValidateDictKey ec d e =>
       unit_cls (validate_dict_key G (if ec then value_registry_EC else value_registry_OKP) d) e
   | FGetByKid ks kid e =>
-      match get_by_kid ks kid, e with
+      match get_by_kid G ks kid, e with
       | Ok k, Ok i => index_of ks k 0 =? i | Err a, Err b => exn_eqb a b | _, _ => false end
   | FCheckUse k u e => unit_cls (check_use k u) e
   | FClaims j e =>
@@ -190,18 +190,18 @@ Definition c16_check (c : c16case) : bool :=
       | _ => let m := jwe_decrypt_json G P reg ka sa data in declined m || is_unreached m || res_cls m e
       end
   | FGuessKey ka h e =>
-      match guess_key ka (Ok h), e with
+      match guess_key G ka (Ok h), e with
       | Ok k, Ok i => (match k_kid k with PStr s => lenN s | _ => 0 end) =? i
       | Err a, Err b => exn_eqb a b | _, _ => false end
   | FGuessSender sa h e =>
-      match guess_sender_key sa (Ok h), e with
+      match guess_sender_key G sa (Ok h), e with
       | Ok (Some k), Ok i => (match k_kid k with PStr s => lenN s | _ => 0 end) =? i
       | Ok None, Ok i => i =? 999
       | Err a, Err b => exn_eqb a b | _, _ => false end
   | CContract name e => existsb (exn_eqb e) (classes_of name)
   | CGuards =>
       needs_jws_compact G && needs_7797_compact G && needs_jws_json G && needs_7797_json G &&
-      needs_jwe_compact G && needs_jwe_json G && g_rec_claims G && g_algstr_jws G
+      needs_jwe_compact G && needs_jwe_json G && g_rec_claims G && g_algstr_jws G && g_kid_repr G
   end.
 
 (* what the model computed, for the failure report: (class or Ok) as a res unit, plus the flags *)
@@ -228,7 +228,7 @@ Definition c16_show (c : c16case) : res unit * list bool :=
    | FMemberHeaders p h _ => cls_of (member_headers p h)
    | FRecipientHeaders j p u h _ => cls_of (recipient_headers j p u h)
    | FValidateDictKey ec d _ => validate_dict_key G (if ec then value_registry_EC else value_registry_OKP) d
-   | FGetByKid ks kid _ => cls_of (get_by_kid ks kid)
+   | FGetByKid ks kid _ => cls_of (get_by_kid G ks kid)
    | FCheckUse k u _ => check_use k u
    | EJws entry strict allowed ka value oracle vr _ =>
       let P := cprims oracle vr in
@@ -247,8 +247,8 @@ Definition c16_show (c : c16case) : res unit * list bool :=
       | 1 => cls_of (jwt_decode_jwe G P reg ka value)
       | _ => cls_of (jwe_decrypt_json G P reg ka sa data)
       end
-   | FGuessKey ka h _ => cls_of (guess_key ka (Ok h))
-   | FGuessSender sa h _ => cls_of (guess_sender_key sa (Ok h))
+   | FGuessKey ka h _ => cls_of (guess_key G ka (Ok h))
+   | FGuessSender sa h _ => cls_of (guess_sender_key G sa (Ok h))
    | _ => Ok tt
    end, guards_list G).
 
